@@ -86,7 +86,10 @@ func (g *frameGen) bytes(kind string, n int) []byte {
 	return b
 }
 
-type frameGen struct{ e *Env }
+type frameGen struct {
+	e          *Env
+	wellFormed map[string]string // raw bytes of every frame built as well formed -> its kind
+}
 
 func (g *frameGen) hostInfo() knxnet.HostInfo {
 	return knxnet.HostInfo{Protocol: knxnet.Protocol(1 + g.e.Choose("wl.proto", 2)), Address: knxnet.Address{10, 0, byte(g.e.Choose("wl.ip", 256)), 7}, Port: knxnet.Port(1 + g.e.Choose("wl.port", 65535))}
@@ -131,9 +134,9 @@ func (g *frameGen) cemiMessage() cemi.Message {
 func (g *frameGen) valid(router bool) genFrame {
 	e := g.e
 	ch, seq := uint8(e.Choose("wl.ch", 256)), uint8(e.Choose("wl.seq", 256))
-	kinds := []string{"connreq", "connres", "connres-err", "statereq", "stateres", "discreq", "discres", "tunreq", "tunreq", "tunreq", "tunres", "routind", "routind", "lost", "busy", "searchreq", "descrreq", "searchres", "descrres", "unknown", "minimal"}
+	kinds := []string{"connreq", "connres", "connres-err", "statereq", "stateres", "discreq", "discres", "tunreq", "tunreq", "tunreq", "tunres", "routind", "routind", "lost", "busy", "searchreq", "descrreq", "searchres", "descrres", "unknown", "minimal", "sized"}
 	if router {
-		kinds = []string{"routind", "routind", "routind", "routind", "lost", "busy", "searchreq", "searchres", "unknown", "minimal"}
+		kinds = []string{"routind", "routind", "routind", "routind", "lost", "busy", "searchreq", "searchres", "unknown", "minimal", "sized"}
 	}
 	k := kinds[e.Choose("wl.kind", len(kinds))]
 	var raw []byte
@@ -185,7 +188,17 @@ func (g *frameGen) valid(router bool) genFrame {
 		raw = mkFrame(uint16(0x0900+e.Choose("wl.usvc", 16)), g.bytes("wl.ub", e.Choose("wl.ulen", 30)))
 	case "minimal":
 		raw = mkFrame(svcConnStateRes, []byte{ch, 0}) // the 8-byte minimum
+	case "sized":
+		// total lengths around the points where the 16-bit length field carries into its high octet
+		total := []int{255, 256, 257, 258, 259, 260, 261, 262, 511, 512, 513, 517, 518, 767, 768, 770}[e.Choose("wl.sized", 16)]
+		b := cemi.LBusmonInd(g.bytes("wl.sizedb", 8))
+		b = append(b, make([]byte, total-7-8)...)
+		for j := 8; j < len(b); j += 31 {
+			b[j] = byte(j)
+		}
+		raw = knxnet.AllocAndPack(&knxnet.RoutingInd{Payload: &b})
 	}
+	g.wellFormed[string(raw)] = k
 	return genFrame{raw: raw, desc: k}
 }
 
@@ -289,6 +302,7 @@ func minInt(a, b int) int {
 
 type sockRun struct {
 	e        *Env
+	wf       map[string]string
 	c        sockCfg
 	sock     knxnet.Socket
 	got      []knxnet.Service
@@ -337,7 +351,8 @@ func runSocket(e *Env, hostile bool) {
 		}
 	}
 	r := &sockRun{e: e, c: c}
-	gen := &frameGen{e}
+	gen := &frameGen{e: e, wellFormed: map[string]string{}}
+	r.wf = gen.wellFormed
 	s := e.S
 
 	var udpPeer *simnet.UDPConn
@@ -654,6 +669,11 @@ func checkSocket(r *sockRun, badHeader bool) {
 			return
 		}
 		if err != nil {
+			if k, ok := r.wf[string(raw)]; ok {
+				// built from a valid value by the library's own encoder (or by hand to the letter of
+				// the specification): the frame is well formed whatever the decoder says
+				e.Violate(prop, "well-formed-frame-rejected", "a well-formed %s frame (%d bytes %x, %s) is turned down by the decoder: %v", k, len(raw), clipBytes(raw), desc, err)
+			}
 			return
 		}
 		if int(n) > len(raw) {
@@ -687,7 +707,8 @@ func checkSocket(r *sockRun, badHeader bool) {
 		// every datagram that arrived at the library's socket before it was closed (the fabric's
 		// buffer of 256 datagrams never overflows at these volumes)
 		for _, rec := range e.F.Records() {
-			if rec.Kind == "arrive" && (strings.HasPrefix(rec.Sock, "udp:"+clientIP) || strings.HasPrefix(rec.Sock, routerLbl)) {
+			// (a datagram that overflowed a receive buffer which the library itself had shrunk counts as arrived)
+			if (rec.Kind == "arrive" || rec.Kind == "overflow" && rec.Err == "SetReadBuffer") && (strings.HasPrefix(rec.Sock, "udp:"+clientIP) || strings.HasPrefix(rec.Sock, routerLbl)) {
 				if r.endAt.Seq != 0 && rec.Seq > r.endAt.Seq {
 					continue
 				}
